@@ -342,6 +342,44 @@ static inline str_t std_to_string__unsigned_int(unsigned v) {
   s.d[s.n] = 0; return s;
 }
 
+/* ---------------------------------------------------------------- std::u32string(_view), content model (capacity U32_CAP) */
+#ifndef U32_CAP
+#define U32_CAP 8
+#endif
+typedef struct { size_t n; uint32_t d[U32_CAP + 1]; } u32str_t;
+#define U32_FITS(k) __CPROVER_assume((k) <= U32_CAP)
+static inline u32str_t u32str_ctor(void) { u32str_t s; s.n = 0; s.d[0] = 0; return s; }
+static inline u32str_t u32str_ctor__z_z(size_t n, uint32_t c) { u32str_t s; U32_FITS(n); for (size_t i = 0; i < n; i++) s.d[i] = c; s.n = n; s.d[n] = 0; return s; }
+static inline u32sv_t u32str_sv(const u32str_t *s) { return (u32sv_t){s->d, s->n}; }
+static inline size_t u32str_size(const u32str_t *s) { return s->n; }
+static inline _Bool u32str_empty(const u32str_t *s) { return s->n == 0; }
+static inline uint32_t *u32str_data(u32str_t *s) { return s->d; }
+static inline uint32_t *u32str_begin(u32str_t *s) { return s->d; }
+static inline uint32_t *u32str_end(u32str_t *s) { return s->d + s->n; }
+static inline uint32_t *u32str_at(u32str_t *s, size_t i) { __CPROVER_assert(i <= s->n, "u32string::operator[] index <= size()"); return &s->d[i]; }
+static inline uint32_t *u32str_back(u32str_t *s) { __CPROVER_assert(s->n > 0, "u32string::back on empty"); return &s->d[s->n - 1]; }
+static inline uint32_t *u32str_front(u32str_t *s) { __CPROVER_assert(s->n > 0, "u32string::front on empty"); return &s->d[0]; }
+static inline void u32str_clear(u32str_t *s) { s->n = 0; s->d[0] = 0; }
+static inline void u32str_reserve__z(u32str_t *s, size_t n) { (void)s; (void)n; }
+static inline void u32str_resize__z(u32str_t *s, size_t n) { U32_FITS(n); for (size_t i = s->n; i < n; i++) s->d[i] = 0; s->n = n; s->d[n] = 0; }
+static inline void u32str_push_back__z(u32str_t *s, uint32_t c) { U32_FITS(s->n + 1); s->d[s->n++] = c; s->d[s->n] = 0; }
+static inline void u32str_append__z(u32str_t *s, uint32_t c) { u32str_push_back__z(s, c); }
+static inline void u32str_append__u32sv(u32str_t *s, u32sv_t v) { U32_FITS(s->n + v.n); for (size_t i = 0; i < v.n; i++) s->d[s->n + i] = v.p[i]; s->n += v.n; s->d[s->n] = 0; }
+static inline void u32str_insert__p_z(u32str_t *s, uint32_t *pos, uint32_t c) { size_t k = (size_t)(pos - s->d); U32_FITS(s->n + 1); for (size_t i = s->n; i > k; i--) s->d[i] = s->d[i - 1]; s->d[k] = c; s->n++; s->d[s->n] = 0; }
+static inline size_t u32sv_size(u32sv_t v) { return v.n; }
+static inline _Bool u32sv_empty(u32sv_t v) { return v.n == 0; }
+static inline const uint32_t *u32sv_data(u32sv_t v) { return v.p; }
+static inline const uint32_t *u32sv_begin(u32sv_t v) { return v.p; }
+static inline const uint32_t *u32sv_end(u32sv_t v) { return v.p + v.n; }
+static inline uint32_t u32sv_at(u32sv_t v, size_t i) { __CPROVER_assert(i < v.n, "u32string_view::operator[] index < size()"); return v.p[i]; }
+static inline uint32_t u32sv_front(u32sv_t v) { __CPROVER_assert(v.n > 0, "u32string_view::front on empty"); return v.p[0]; }
+static inline uint32_t u32sv_back(u32sv_t v) { __CPROVER_assert(v.n > 0, "u32string_view::back on empty"); return v.p[v.n - 1]; }
+static inline u32sv_t u32sv_substr__z(u32sv_t v, size_t pos) { __CPROVER_assert(pos <= v.n, "u32string_view::substr pos <= size()"); return (u32sv_t){v.p + pos, v.n - pos}; }
+static inline u32sv_t u32sv_substr__z_z(u32sv_t v, size_t pos, size_t n) { __CPROVER_assert(pos <= v.n, "u32string_view::substr pos <= size()"); size_t r = v.n - pos; return (u32sv_t){v.p + pos, n < r ? n : r}; }
+static inline void u32sv_remove_prefix__z(u32sv_t *v, size_t n) { __CPROVER_assert(n <= v->n, "remove_prefix n <= size()"); v->p += n; v->n -= n; }
+static inline void u32sv_remove_suffix__z(u32sv_t *v, size_t n) { __CPROVER_assert(n <= v->n, "remove_suffix n <= size()"); v->n -= n; }
+static inline _Bool u32sv_eq(u32sv_t a, u32sv_t b) { if (a.n != b.n) return 0; for (size_t i = 0; i < a.n; i++) if (a.p[i] != b.p[i]) return 0; return 1; }
+
 /* ---------------------------------------------------------------- optional / pair / array */
 typedef struct { _Bool has; sv_t v; } opt_sv_t;
 typedef struct { _Bool has; _Bool v; } opt_Bool_t;
@@ -349,6 +387,7 @@ typedef struct { _Bool has; str_t v; } opt_str_t;
 typedef struct { _Bool has; uint16_t v; } opt_uint16_t;
 typedef struct { _Bool has; uint32_t v; } opt_uint32_t;
 typedef struct { size_t first; _Bool second; } pair_size_t_Bool_t;
+typedef struct { str_t first; str_t second; } pair_str_t_str_t_t;
 typedef pair_size_t_Bool_t pair_unsigned_long_Bool_t;
 typedef struct { uint16_t a[8]; } arr_uint16_t_8_t;
 typedef struct { unsigned short a[8]; } arr_unsigned_short_8_t;
